@@ -74,6 +74,15 @@ CLAIMED = {
          '(deflater generation, message sequence, window bits) tags; a reference RFC 7692 peer applies the NEGOTIATED parameters (symbolic window digits, spellings, both takeover flags '
          'as solver variables) over histories of sends/receives with solver-chosen fragmentation: invalid parameters => Rejected; peer inflater restores every client message in wire order; '
          'client delivers every peer message; damaged stream => ProtocolError, never wrong content; RSV1 only when negotiated and requested. Replay uses the real zlib on both sides.'),
+ 'C11': ('model_checking', '3 (C11), 6',
+         'Real threads running the real send_text/send_binary/send_ping/_send_pong/_check_auto_ping on one connected WebSocket under a deterministic baton scheduler: preemption points '
+         'are statement starts in lomond files (sys.settrace) plus the middle of a two-step sendall, the session lock is scheduler-aware, and WHICH THREAD RUNS at each point is a solver '
+         'variable named after the program location; all schedules with <= PB preemptions are enumerated by the path explorer, payloads symbolic. Oracle: wire decodes as whole frames, '
+         'exactly the messages sent, per-thread order, and (abstract zlib, context takeover) the reference peer inflates in wire order. Bounded by PB and line granularity.'),
+ 'C12': ('model_checking', '3 (C12), 6',
+         'Same scheduler harness with threads running close(), a second close(), send_*, the loop-side server-Close echo (_on_close), _send_pong and _check_auto_ping: <=1 Close frame, no data '
+         'frame after it, every call returns or raises a WebSocketError subclass, a send that raised wrote nothing. Violations are keyed by what the late writer saw when it took the '
+         'write lock (closing flag / Close already on the wire), which separates the known window in close() from any new race.'),
 }
 
 REPLAY = './vcheck {prop} --replay {{path}}'
